@@ -17,7 +17,10 @@ pub fn run(_sh: &Shell, cl: &CommandLine, cmd: &Command,
     }
 
     let mut _cmd = exec::Command::new(&args[1]);
+    // the new program starts with the default handling of ctrl-C
+    let old_handler = unsafe { libc::signal(libc::SIGINT, libc::SIG_DFL) };
     let err = _cmd.args(&args[2..len]).exec();
+    unsafe { libc::signal(libc::SIGINT, old_handler); }
     let info = format!("cicada: exec: {}", err);
     print_stderr_with_capture(&info, &mut cr, cl, cmd, capture);
     cr
